@@ -303,7 +303,7 @@ fn optional_word_members(s: &Spec, out: &mut Vec<(Vec<Id>, Vec<Id>)>) {
     }
 }
 
-fn absent_words_then_word(spec: &OptSpec, units: &[U]) -> bool {
+pub fn absent_words_then_word(spec: &OptSpec, units: &[U]) -> bool {
     let mut groups = Vec::new();
     optional_word_members(&spec.root, &mut groups);
     if groups.iter().all(|(_, o)| o.is_empty()) {
